@@ -186,14 +186,12 @@ struct Seen {
   int count = 0;
   char state = '-';
   int code = 0;
-  std::uint64_t at = 0;
   const void* exec = nullptr;
 };
 
 template <typename V, typename E>
 inline void Observe(Seen& s, const yaclib::Result<V, E>& r) {
   ++s.count;
-  s.at = vx::Now();
   s.exec = CurrentExecutorTag();
   switch (r.State()) {
     case yaclib::ResultState::Value:
